@@ -48,13 +48,14 @@ def case_history(sp, k, word, niter):
     # alphabet of two concrete well-conditioned Gramians with rational Frobenius norm (5 and 9); everything the solver returns stays symbolic
     Gs = {"a": [[R(3), R(0)], [R(0), R(4)]], "b": [[R(3), R(2)], [R(2), R(8)]]}
     with_norm = choice(2, "max_norm_enabled") == 0
+    dt = [torch.float32, torch.float64][choice(2, "dtype")]
     mx = named("max_norm") if with_norm else R(0)
     if with_norm:
         assume(mx > 0)
     A = NashMTL(n_tasks=m, max_norm=mx, update_weights_every=k, optim_niter=niter)
     obs = []
     def cex(model=None, why=None):
-        d = dict(kind="nashmtl_history", k=k, word=word, niter=niter, why=why)
+        d = dict(kind="nashmtl_history", k=k, word=word, niter=niter, why=why, dtype=str(dt))
         if model is not None:
             d.update(cex_values(model, Ga=Gs["a"], Gb=Gs["b"], max_norm=mx))
         return d
@@ -68,7 +69,7 @@ def case_history(sp, k, word, niter):
             since = 0
             suffix_start = i + 1
             continue
-        J = gram_only(Gs[ch])
+        J = gram_only(Gs[ch], dtype=dt)
         n0 = _solves()
         try:
             out = A(J)
@@ -101,7 +102,7 @@ def case_history(sp, k, word, niter):
         for i, ch in enumerate(word):
             if i < suffix_start:
                 continue
-            wB = Bagg(gram_only(Gs[ch]))._w._flat()
+            wB = Bagg(gram_only(Gs[ch], dtype=dt))._w._flat()
             wA = [w for (j, w) in outs if j == i][0]
             obs.append(Ob("after_reset_same_as_fresh_instance", eq_all(wA, wB), lambda model, i=i: cex(model, f"suffix call {i}")))
     return obs
